@@ -125,6 +125,9 @@ def build():
         S.append(Scenario(vn + "-rsa-clientauth-ecdsa", ver,
                           _kx("rsa", ver, "rsa", ckey="ecdsa", req_cert=True),
                           tags=["plain", "cauth"]))
+        S.append(Scenario(vn + "-rsa-reqcert-nocert", ver,
+                          _kx("rsa", ver, "rsa", req_cert=True),
+                          tags=["plain", "cauth"]))
         S.append(Scenario(vn + "-resume-id", ver, _resume_make(ver),
                           _resume_prepare(ver, "id"),
                           tags=["plain", "resume"]))
